@@ -477,6 +477,34 @@ def encounter_runs(res, tier):
                 viol(res, "close-encounter", integrator=name, opts={}, direction=sgn, error=e, tolerance=1e-4)
 
 
+def sei_runs(res):
+    """SEI without self-gravity solves Hill's equations exactly: a test particle follows the analytic epicycle
+       x'' = 2 O y' + 3 O^2 x,  y'' = -2 O x',  z'' = -Oz^2 z  for any step size, also with Oz != O, both directions"""
+    for O, Oz in ((1.0, None), (1.0, 1.0), (0.7, 1.9), (2.0, 0.6)):
+        for sgn in (1, -1):
+            sim = rebound.Simulation()
+            sim.integrator = "sei"
+            sim.ri_sei.OMEGA = O
+            if Oz is not None:
+                sim.ri_sei.OMEGAZ = Oz
+            oz = O if Oz is None else Oz
+            x0, y0, z0, vx0, vy0, vz0 = 0.3, -0.2, 0.15, 0.05, -0.11, 0.07
+            sim.add(m=0.0, x=x0, y=y0, z=z0, vx=vx0, vy=vy0, vz=vz0)
+            sim.dt = sgn * 0.37
+            sim.steps(23)
+            t = sim.t
+            C = vy0 + 2 * O * x0
+            xa = 2 * C / O + (x0 - 2 * C / O) * math.cos(O * t) + vx0 / O * math.sin(O * t)
+            ya = y0 - 3 * C * t - 2 * (x0 - 2 * C / O) * math.sin(O * t) + 2 * vx0 / O * (math.cos(O * t) - 1)
+            za = z0 * math.cos(oz * t) + vz0 / oz * math.sin(oz * t)
+            p = sim.particles[0]
+            err = max(abs(p.x - xa), abs(p.y - ya), abs(p.z - za))
+            res["order_runs"] += 1
+            res["observed"]["sei epicycle O=%g Oz=%s dir%+d" % (O, Oz, sgn)] = err
+            if not err <= 1e-11:
+                viol(res, "sei-epicycle", integrator="sei", opts={"OMEGA": O, "OMEGAZ": Oz}, direction=sgn, error=err, got=[p.x, p.y, p.z], analytic=[xa, ya, za])
+
+
 def three_body():
     masses = [1.0, 1e-3, 4e-4]
     tmp = rebound.Simulation()
@@ -583,6 +611,7 @@ def main():
     two_body(res, tier)
     order_runs(res, adv, tier, valid, seed)
     encounter_runs(res, tier)
+    sei_runs(res)
     ode_runs(res, tier)
     json.dump(res, open(out, "w"))
 
